@@ -7,7 +7,7 @@ import "encoding/json"
 var numPalette = []float64{0, 1, -1, 2, 3, 5, 10, 0.5, 1.5, 2.5, -2.5, 100, 1e9, 7, 0.1, 0.3}
 var strPalette = []string{"", "a", "ab", "abc", "abcd", "hello", "x1", "A-1", "héllo", "日本", "𝄞x", "a b", "2020-01-02", "Zm9v", "12"}
 var keyPalette = []string{"a", "b", "c", "id", "name"}
-var patPalette = []string{"^a", "^[a-z]+$", "b$", "^\\d+$", "[", "^.{2,3}$"}
+var patPalette = []string{"^a", "^[a-z]+$", "b$", "^\\d+$", "[", "^.{2,3}$", "^\\u0061\\u0062+$", "^[\\u0061\\u0062]+$", "^\\u0041-\\u0042$"}
 var typeNames = []string{"string", "number", "integer", "boolean", "array", "object"}
 
 type SchemaGenOpts struct {
@@ -72,6 +72,9 @@ func randSchema(r *Rng, depth int, o SchemaGenOpts) *GSchema {
 			g.Pattern = Pick(r, patPalette[:4])
 			if r.Chance(10) {
 				g.Pattern = patPalette[5]
+			}
+			if r.Chance(8) {
+				g.Pattern = Pick(r, patPalette[6:]) // code point escapes, adjacent ones included
 			}
 			if o.Hostile && r.Chance(15) {
 				g.Pattern = "["
@@ -268,7 +271,7 @@ func valueFor(r *Rng, g *GSchema, depth int) any {
 	case "string":
 		s := Pick(r, strPalette)
 		if g.Pattern != "" && r.Chance(60) {
-			s = Pick(r, []string{"abc", "a", "ab", "12", "b", "zb"})
+			s = Pick(r, []string{"abc", "a", "ab", "12", "b", "zb", "abb", "A-B"})
 		}
 		if pool, ok := formatShaped[g.Format]; ok && r.Chance(75) {
 			s = Pick(r, pool)
